@@ -20,7 +20,7 @@
 
 import pickle
 from functools import reduce
-from os import makedirs
+from os import makedirs, replace
 from os.path import isdir, isfile, join
 from warnings import warn
 
@@ -422,23 +422,33 @@ def optimize_kl(likelihood_energy,
             sl = e.samples.at(mean)
             energy_history.append((iglobal, e.value))
 
-        if output_directory is not None:
-            _export_operators(iglobal, export_operator_outputs, sl, comm(iglobal))
-            sl.save(join(output_directory, "pickle/") + _file_name_by_strategy(iglobal),
-                    overwrite=True)
-
-            if _MPI_master(comm(iglobal)):
-                with open(join(output_directory, "last_finished_iteration"), "w") as f:
-                    f.write(str(iglobal))
-                _pickle_save_values(iglobal, 'energy_history', energy_history)
-                if plot_energy_history:
-                    _plot_energy_history(iglobal, energy_history)
+        # Persist the iteration. Everything `resume` needs besides the samples
+        # is written first; the samples and the mean come last and are
+        # followed immediately by the commit marker, which is replaced
+        # atomically. `resume` therefore never finds the marker ahead of the
+        # data it refers to, nor half-written files.
+        if output_directory is not None and _MPI_master(comm(iglobal)):
+            _pickle_save_values(iglobal, 'energy_history', energy_history)
+            if plot_energy_history:
+                _plot_energy_history(iglobal, energy_history)
         _barrier(comm(iglobal))
 
         _minisanity(lh, iglobal, sl, comm, plot_minisanity_history)
         _barrier(comm(iglobal))
 
         _counting_report(count, iglobal, comm)
+
+        if output_directory is not None:
+            _export_operators(iglobal, export_operator_outputs, sl, comm(iglobal))
+            sl.save(join(output_directory, "pickle/") + _file_name_by_strategy(iglobal),
+                    overwrite=True)
+            _barrier(comm(iglobal))
+            if _MPI_master(comm(iglobal)):
+                lfile = join(output_directory, "last_finished_iteration")
+                with open(lfile + ".tmp", "w") as f:
+                    f.write(str(iglobal))
+                replace(lfile + ".tmp", lfile)
+        _barrier(comm(iglobal))
 
         _handle_inspect_callback(inspect_callback, sl, iglobal)
         _barrier(comm(iglobal))
@@ -486,8 +496,10 @@ def _load_random_state():
 def _pickle_save_values(index, name, val):
     file_name = join(_output_directory, f"pickle/{name}_")
     file_name += _file_name_by_strategy(index)
-    with open(file_name, "wb") as f:
+    # Never leave a truncated pickle behind: `resume` loads these files
+    with open(file_name + ".tmp", "wb") as f:
         pickle.dump(val, f)
+    replace(file_name + ".tmp", file_name)
 
 
 def _pickle_load_values(index, name):
